@@ -275,6 +275,8 @@ def gen_linsolve(rng, tier):
     elif r < 0.4:
         sol = "nolda"
     As = matgen.to_storage(A, st)
+    if st == "dense" and rng.random() < 0.3:
+        As = np.asfortranarray(As)       # column-major dense input (e.g. a transposed view or LAPACK output)
 
     def build():
         kw2 = dict(kw)
@@ -305,6 +307,8 @@ def gen_inverse(rng, tier):
     cls = str(rng.choice(["spd", "sym", "gen", "triu", "hpd", "herm", "csym", "cgen"]))
     n = int(rng.integers(1, 8))
     A = matgen.make(rng, cls, n, cond=10 ** rng.uniform(0, 2.5))
+    if rng.random() < 0.3:
+        A = np.asfortranarray(A)
 
     def tangent(x0, y0, v):
         B = np.linalg.inv(x0[0])
@@ -435,6 +439,9 @@ def gen_eig_dense(rng, tier):
         gaps = np.abs(lam[:, None] - lam[None, :]) + np.eye(n) * 1e9
         if gaps.min() > 0.15 * max(1.0, np.abs(lam).max()) * 0.2:
             break
+    if rng.random() < 0.4:
+        A = np.asfortranarray(A)         # column-major inputs: LAPACK drivers may work in place on those
+        Bm = None if Bm is None else np.asfortranarray(Bm)
     x0 = [A] + ([Bm] if Bm is not None else [])
     acls = {"sym": "sym", "symB": "sym", "gen": "gen", "genB": "gen", "herm": "herm", "hermB": "herm", "csym": "csym"}[kind]
     bcls = "herm" if kind == "hermB" else "sym"
@@ -677,16 +684,17 @@ def gen_scaling(rng, tier):
     sc = float(rng.uniform(1, 100))
     val = float(rng.uniform(0.5, 5))
     kw = {"objective": {}, "min": {"minval": float(rng.uniform(0.5, 3))}, "max": {"maxval": float(rng.uniform(0.5, 3))}}[mode]
-    x0 = [val if rng.random() < 0.5 else np.array(val)]
+    r = rng.random()
+    x0 = [val if r < 0.35 else (np.array(val) if r < 0.6 else rng.uniform(0.5, 5, int(rng.integers(1, 6))))]
 
     def tangent(x0_, y0, v):
         # the factor is frozen at the first response (documented memory): objective sf = scaling/|x0|
         if mode == "objective":
-            return [sc / abs(float(x0_[0])) * v[0]]
+            return [sc / float(np.linalg.norm(x0_[0])) * v[0]]
         if mode == "min":
             return [-sc * v[0] / kw["minval"]]
         return [sc * v[0] / kw["maxval"]]
-    return Cfg("Scaling", f"Scaling/{mode}/{type(x0[0]).__name__}", lambda: pym.Scaling(_S("x", x0[0]), pym.Signal("y"), scaling=sc, **kw), x0,
+    return Cfg("Scaling", f"Scaling/{mode}/{type(x0[0]).__name__}{np.shape(x0[0])}", lambda: pym.Scaling(_S("x", x0[0]), pym.Signal("y"), scaling=sc, **kw), x0,
                tangent=tangent)
 
 
